@@ -9,6 +9,7 @@ import functools
 import os
 import random
 import signal
+import hashlib
 import struct
 import threading
 import time
@@ -39,8 +40,12 @@ def canon(o, depth=0):
     if t is complex:
         return 'c' + struct.pack('>dd', o.real, o.imag).hex()
     if t is str:
+        if len(o) > 2048:
+            return 'sh%d:%s' % (len(o), hashlib.sha1(o.encode('utf-8', 'surrogatepass')).hexdigest())
         return 's' + ascii(o)
     if t is bytes:
+        if len(o) > 2048:
+            return 'bh%d:%s' % (len(o), hashlib.sha1(o).hexdigest())
         return 'b' + o.hex()
     if t is bytearray:
         return 'B' + bytes(o).hex()
@@ -71,7 +76,7 @@ class Box:
 # inputs
 # --------------------------------------------------------------------------
 
-TYPES = ['int', 'str', 'bytes', 'float', 'nested', 'mixed']
+TYPES = ['int', 'str', 'bytes', 'float', 'nested', 'mixed', 'big']
 _FLOATS = [0.0, -0.0, 1.5, -2.25, float('inf'), float('-inf'), float('nan'), 1e308, 5e-324, 0.1]
 _STRS = ['', 'a', 'ab', 'x' * 40, 'héllo', '世界', 'nul\x00in', 'line\nbreak', "q'\"uote", '\U0001f600']
 
@@ -79,6 +84,15 @@ _STRS = ['', 'a', 'ab', 'x' * 40, 'héllo', '世界', 'nul\x00in', 'line\nbreak'
 def _one(rng, kind, depth=0):
     if kind == 'mixed':
         kind = rng.choice(['int', 'str', 'bytes', 'float', 'nested', 'none', 'bool', 'box'])
+    if kind == 'big':
+        # values larger than a pipe's capacity next to short ones: a worker
+        # is still writing one result while another sends its own
+        if rng.random() < 0.5:
+            return _one(rng, rng.choice(['int', 'str']))
+        size = rng.choice([70000, 150000, 300000])
+        seedb = bytes(rng.randrange(256) for _ in range(16))
+        body = (seedb * (size // 16 + 1))[:size]
+        return body if rng.random() < 0.5 else body.decode('latin-1')
     if kind == 'int':
         return rng.choice([0, 1, -1, 255, 256, 2 ** 31 - 1, 2 ** 31, -2 ** 63, 2 ** 64 + 1,
                            rng.randrange(-10 ** 6, 10 ** 6), 10 ** 30 + rng.randrange(100)])
